@@ -786,7 +786,52 @@ def run_mapping_pair(spec, acc):
         acc.outcomes["mapping-type/%s" % ("same" if p1 is p2 else "distinct")] += 1
 
 
+def _extra_pairs():
+    """further value pairs that differ in ONE component of a structured value (the A/B table has one pair per keyword)"""
+    return {
+        "timeout": [("total-only", Timeout(connect=2, read=7, total=5), Timeout(connect=2, read=7, total=10)),
+                    ("total-none-vs-set", Timeout(connect=2, read=7, total=None), Timeout(connect=2, read=7, total=30)),
+                    ("read-only", Timeout(connect=2, read=7), Timeout(connect=2, read=8)),
+                    ("connect-only", Timeout(connect=2, read=7), Timeout(connect=3, read=7))],
+        "retries": [("redirect-only", Retry(total=5, redirect=1), Retry(total=5, redirect=2)),
+                    ("forcelist-only", Retry(total=5, status_forcelist=[500]), Retry(total=5, status_forcelist=[503]))],
+        "socket_options": [("value-only", [(6, 1, 1)], [(6, 1, 0)])],
+    }
+
+
+def run_extra_pair(spec, acc):
+    from urllib3 import PoolManager
+    k, scheme, label = spec["kw"], spec["scheme"], spec["pair"]
+    va, vb = next((a, b) for (l, a, b) in _extra_pairs()[k] if l == label)
+    acc.n += 1
+    acc.counters["extra_value_pairs"] += 1
+    url = "%s://%s/x" % (scheme, HOST)
+    with warnings.catch_warnings():
+        warnings.simplefilter("ignore")
+        for first, second, same in ((va, vb, False), (vb, va, False), (va, va, True)):
+            mgr = PoolManager()
+            p1 = mgr.connection_from_url(url, pool_kwargs={k: first})
+            p2 = mgr.connection_from_url(url, pool_kwargs={k: second})
+            got = getattr(p2, k, None)
+            mgr.clear()
+            sig = {"kw": k, "scheme": scheme, "pair": label}
+            if not same and p1 is p2:
+                acc.violation("shared-pool", sig, spec, observed="one pool for two %s values that differ in %s" % (k, label), expected="distinct pools")
+                return
+            if same and p1 is not p2:
+                acc.violation("equal-settings-different-pools", sig, spec, observed="two pools for the same object", expected="the cached pool")
+                return
+            if k == "timeout" and (got.total, got.connect_timeout, got.read_timeout) != (second.total, second.connect_timeout, second.read_timeout):
+                acc.violation("readback", dict(sig, what="value-not-carried"), spec, observed=repr(got), expected=repr(second))
+                return
+    acc.outcomes["extra-pair/distinct"] += 1
+
+
 def run_mapping_types(acc):
+    for k, pairs in _extra_pairs().items():
+        for scheme in ("http", "https"):
+            for label, _, _ in pairs:
+                run_extra_pair({"kind": "extrapair", "kw": k, "scheme": scheme, "pair": label}, acc)
     forms = [(c, v) for c in ("dict", "hd") for v in ("A", "B")]
     for k in MAPPING_KWS:
         for scheme in ("http", "https"):
@@ -947,6 +992,9 @@ def replay(case):
     values()
     if case.get("kind") == "maptype":
         run_mapping_pair(case, acc)
+        return {"violations": acc.viol}
+    if case.get("kind") == "extrapair":
+        run_extra_pair(case, acc)
         return {"violations": acc.viol}
     res = run_sequence(case, acc)
     return {"trace": res["trace"], "outcome": res["outcome"], "violations": acc.viol}
